@@ -12,6 +12,7 @@ package c05
 
 import (
 	"fmt"
+	"os"
 	"strings"
 
 	"verifharness/internal/dkgnet"
@@ -38,6 +39,9 @@ func byzOf(w []string) int {
 
 func exec(line string) (res h.Result) {
 	w := strings.Fields(line)
+	if w[0] == "hist" {
+		return execHist(w)
+	}
 	if w[0] != "adv" {
 		panic("bad case line")
 	}
@@ -412,6 +416,15 @@ func dupKeys(seed func() uint64, emit func(string)) {
 }
 
 func gen(tier string, rng *h.Rng, emit func(string)) {
+	// the history cases come first and draw from their own stream (the stream of the adv cases is what it was)
+	fork := *rng
+	only := os.Getenv("VERIF_C05_ONLY") // development knob: "hist" / "adv" runs one family only
+	if only != "adv" {
+		genHist(tier, h.NewRng(fork.U64()^0xC05D), emit)
+	}
+	if only == "hist" {
+		return
+	}
 	thorough := tier == "thorough"
 	seed := func() uint64 { return rng.U64() >> 1 }
 	for n := 3; n <= 5; n++ {
